@@ -8,6 +8,8 @@ package c14
 import (
 	"fmt"
 	"net/textproto"
+	"os"
+	"path/filepath"
 	"testing"
 	"time"
 
@@ -31,6 +33,11 @@ type Case struct {
 	// config renders when no tag was picked). No tag is listed to restrict the test to: as everywhere in pandora
 	// (confutil.IsChosenCase: "If no chosenCases provided - returns true") that is "no filter", in both modes.
 	ChosenEmptyList bool `json:"chosencases_given_as_empty_list,omitempty"`
+	// OsFs: the ammo file is a real file in a temporary directory read through afero.NewOsFs(), the file system the pandora
+	// binary hands to the providers (cli: Import(afero.NewOsFs())), instead of the in-memory one (provrun.BuildHTTPOnOsFs):
+	// an *os.File does not forgive what afero's mem.File forgives (a second Close, a read after Close), and how a run ENDS
+	// is half of this property
+	OsFs bool `json:"os_fs,omitempty"`
 	// Hold: the consumer acquires this many ammo before it reads any of them (what that many instances do)
 	Hold int `json:"held_at_once"`
 	// DateMW: the provider is configured with `middlewares: [{type: header/date, ...}]` (docs/eng/providers.md,
@@ -76,6 +83,7 @@ func genCase(t *rapid.T) Case {
 		c.Passes = rapid.IntRange(1, 3).Draw(t, "passes")
 	}
 	c.Hold = rapid.SampledFrom([]int{1, 1, 2, 3, 4}).Draw(t, "hold")
+	c.OsFs = rapid.IntRange(0, 3).Draw(t, "osFs") == 0 && !(format == "uri" && c.File.Layout.Inline)
 	switch rapid.IntRange(0, 6).Draw(t, "chosenKind") {
 	case 0:
 		// none configured
@@ -150,6 +158,17 @@ func run(c Case, preload bool, take int) (outcome, error) {
 	conf := map[string]any{"type": ag.ProviderType(c.File.Format)}
 	if c.File.Format == "uri" && c.File.Layout.Inline {
 		conf["uris"] = c.File.Lines()
+	} else if c.OsFs {
+		dir, err := os.MkdirTemp("", "verif-c14-osfs-")
+		if err != nil {
+			return outcome{}, fmt.Errorf("harness: %v", err)
+		}
+		defer os.RemoveAll(dir)
+		name := filepath.Join(dir, "ammo.txt")
+		if err := os.WriteFile(name, c.File.Render(), 0o644); err != nil {
+			return outcome{}, fmt.Errorf("harness: %v", err)
+		}
+		conf["file"] = name
 	} else {
 		name := pand.WriteFile("c14", ".ammo", c.File.Render())
 		defer pand.Remove(name)
@@ -186,7 +205,11 @@ func run(c Case, preload bool, take int) (outcome, error) {
 		}
 		conf["middlewares"] = []any{mw}
 	}
-	p, err := provrun.Build(conf)
+	build := provrun.Build
+	if c.OsFs && conf["file"] != nil {
+		build = provrun.BuildHTTPOnOsFs
+	}
+	p, err := build(conf)
 	if err != nil {
 		return outcome{}, fmt.Errorf("valid provider config rejected (preload=%v): %v", preload, err)
 	}
@@ -322,6 +345,8 @@ func checkWith(c Case, o *vf.Obs, r *vf.Run) error {
 	o.ClassIf(c.Hold >= 2, "several_ammo_held_at_once")
 	o.ClassIf(c.Hold >= 2 && len(sel) > 0 && len(sel) < c.Hold && want > len(sel), "one_entry_held_twice")
 	o.ClassIf(c.File.Big, "file_larger_than_reader_buffer")
+	o.ClassIf(c.OsFs, "file_on_os_file_system")
+	o.ClassIf(c.OsFs && X >= 0, "file_on_os_file_system_bounded_run_must_end_nil")
 	o.ClassIf(len(c.Chosen) > 0 && c.Limit > 0, "filter_x_limit")
 	o.ClassIf(len(c.Chosen) > 0 && c.Passes > 0, "filter_x_passes")
 	o.ClassIf(emptyMatch, "empty_match")
